@@ -70,6 +70,7 @@ fn arg_classes() -> Vec<(&'static str, Cell, bool)> {
         ("bits-empty", Cell::Bitstr(xeh::bitstr::Bitstr::new()), false),
         ("bits-aligned", Cell::Bitstr(xeh::bitstr::Bitstr::from(vec![0x41u8, 0x00, 0xff])), false),
         ("bits-unaligned", unaligned_bits(), false),
+        ("bits-unaligned-whole-bytes", Cell::Bitstr(xeh::bitstr::Bitstr::from(vec![0xa5u8, 0x5a, 0xff, 0x0f]).substr(3, 19).unwrap()), false),
         ("[]", Cell::Vector(Xvec::new()), false),
         ("[1 2 3]", Cell::Vector(v123), false),
         ("nested-vec", Cell::Vector(nested), false),
@@ -304,8 +305,8 @@ fn systematic(k: usize, n: usize, cfg: &EngineCfg, stats: &mut Stats) {
 // ---------------------------------------------------------------------------
 // token soups over API call sequences
 // ---------------------------------------------------------------------------
-const LITS: [&str; 44] = [
-    "0", "1", "-1", "255", "9223372036854775807", "9223372036854775808", "18446744073709551615", "18446744073709551616", "170141183460469231731687303715884105727", "-170141183460469231731687303715884105728", "0x10", "0b101", "1.5", "-0.0", "1e3",
+const LITS: [&str; 45] = [
+    "0", "1", "-1", "255", "8", "9223372036854775807", "9223372036854775808", "18446744073709551615", "18446744073709551616", "170141183460469231731687303715884105727", "-170141183460469231731687303715884105728", "0x10", "0b101", "1.5", "-0.0", "1e3",
     "\"\"", "\"a\"", "\"\u{e9}\u{e9}\u{e9}\u{e9}\u{e9}\u{e9}\u{e9}\u{e9}\u{e9}\u{e9}\u{e9}\u{e9}\u{e9}\u{e9}\u{e9}\u{e9}\u{e9}\u{e9}\u{e9}\u{e9}\u{e9}\u{e9}\u{e9}\u{e9}\u{e9}\u{e9}\u{e9}\u{e9}\u{e9}\u{e9}\u{e9}\u{e9}\u{e9}\u{e9}\u{e9}\u{e9}\u{e9}x\"", "\"12\"", "\"1.5\"", "||", "|ff|", "|a5 x.x|", "|0|", "nil", "true", "false", "[ ]", "[ 1 2 3 ]", "{ }", "{ 1 \"a\" }", "^{ 1 \"k\" ^}", "^{ 16 \"#fmt\" ^}",
     "^{ 4294967295 \"#fmt\" ^}", "^hex", "^bin", "true fmt/prefix", "true fmt/tags", "\\ comment\n", "\\( c \\)", "foo", "2d", "\"unterminated", "|zz",
 ];
